@@ -579,7 +579,10 @@ def stage_segments(tier, segfile, name, universe="3", configs=None):
         results = run_parallel([one(i, hk) for i, hk in enumerate(configs)], max(2, NCPU // 3))
         shutil.rmtree(w, ignore_errors=True)
         return {"runs": results}
-    return cached(name + "-" + tier, source_hash() + "-" + spec_hash() + "-" +
+    import hashlib
+    with open(segfile, "rb") as fh:
+        seg_hash = hashlib.sha256(fh.read()).hexdigest()[:10]
+    return cached(name + "-" + tier, source_hash() + "-" + spec_hash() + "-" + seg_hash + "-" +
                   os.environ.get("VERIF_SEED", "0"), go)
 
 
@@ -870,36 +873,44 @@ def full_table_segments(path, tier):
         a.update(kw)
         return {"c": 1, "d": 0, "a": a}
 
-    def fill(n, cap=0, limit=-1):
-        return [opl("new", n=limit, kh=cap)] + [opl("insert", k=i, kh=0, vs=i % 3) for i in range(1, n + 1)]
+    def fill(keys, cap=0, limit=-1):
+        return [opl("new", n=limit, kh=cap)] + [opl("insert", k=k, kh=0, vs=i % 3) for i, k in enumerate(keys, 1)]
     segs = []
     sizes = (28, 56) if tier == "quick" else (14, 28, 56, 112, 224)
     for n in sizes:
-        total = sum(64 + i % 3 for i in range(1, n + 1))
-        suffix = [opl("len"), opl("debug")] + \
-                 [opl("insert", k=1000 + i, vs=1) for i in range(6)] + \
-                 [opl("debug"), opl("get", k=n), opl("get", k=n - 1), opl("peek", k=7), opl("get_lru"),
-                  opl("insert", k=n, vs=2), opl("remove_lru"), opl("retain", keep=[n, 1000, 1003]),
-                  opl("debug"), opl("shrink_to_fit"), opl("insert", k=2000), opl("debug"), opl("clear")]
-        masses = [
-            opl("retain", keep=list(range(7, n + 1, 7))),              # few survivors, spread out
-            opl("retain", keep=list(range(n - 2, n + 1))),             # only the newest
-            opl("retain", keep=list(range(1, n + 1, 2))),              # every other one
-            opl("retain", keep=list(range(1, 4))),                     # only the oldest
-            opl("set_max_size", n=3 * 64 + 6),                         # all but the last three evicted
-            opl("mutate", k=1, vs=total - 3 * 66),                     # the LRU entry grows: mass eviction
-            opl("insert", k=3000, vs=total - 4 * 66),                  # a huge entry: mass eviction
-            opl("drain", w=["n", "b", "n"]),
-            opl("clear"),
-        ]
-        for m in masses:
-            lim = total if m["a"]["op"] in ("mutate", "insert") else -1
-            for cap in (0, n):
-                segs.append({"prefix": fill(n, cap=cap, limit=lim), "op": m, "suffix": suffix,
-                             "quiet_prefix": True})
-        # one at a time: remove_lru until three remain, each a logged event
-        segs.append({"prefix": fill(n), "op": opl("remove_lru"),
-                     "suffix": [opl("remove_lru") for _ in range(n - 4)] + suffix, "quiet_prefix": True})
+        buckets = n * 8 // 7
+        # key ids 1..n sit in their ideal buckets under the identity hasher; in the colliding
+        # variant the second half has the same residues as the first and is displaced by n/2
+        # buckets (an entry that is not where its hash points is what a rehash in place moves)
+        for keys in (list(range(1, n + 1)),
+                     list(range(1, n // 2 + 1)) + list(range(buckets + 1, buckets + n // 2 + 1))):
+            total = sum(64 + i % 3 for i in range(1, n + 1))
+            K = lambda idx: [keys[i - 1] for i in idx]
+            suffix = [opl("len"), opl("debug")] + \
+                     [opl("insert", k=1000 + i, vs=1) for i in range(6)] + \
+                     [opl("debug"), opl("get", k=keys[-1]), opl("get", k=keys[-2]), opl("peek", k=keys[6]),
+                      opl("get_lru"), opl("insert", k=keys[-1], vs=2), opl("remove_lru"),
+                      opl("retain", keep=[keys[-1], 1000, 1003]),
+                      opl("debug"), opl("shrink_to_fit"), opl("insert", k=2000), opl("debug"), opl("clear")]
+            masses = [
+                opl("retain", keep=K(range(7, n + 1, 7))),              # few survivors, spread out
+                opl("retain", keep=K(range(n - 5, n + 1))),             # only the newest (displaced ones)
+                opl("retain", keep=K(range(1, n + 1, 2))),              # every other one
+                opl("retain", keep=K(range(1, 4))),                     # only the oldest
+                opl("set_max_size", n=6 * 64 + 12),                     # all but the newest six evicted
+                opl("mutate", k=keys[0], vs=total - 3 * 66),            # the LRU entry grows: mass eviction
+                opl("insert", k=3000, vs=total - 4 * 66),               # a huge entry: mass eviction
+                opl("drain", w=["n", "b", "n"]),
+                opl("clear"),
+            ]
+            for m in masses:
+                lim = total if m["a"]["op"] in ("mutate", "insert") else -1
+                for cap in (0, n):
+                    segs.append({"prefix": fill(keys, cap=cap, limit=lim), "op": m, "suffix": suffix,
+                                 "quiet_prefix": True})
+            # one at a time: remove_lru until three remain, each a logged event
+            segs.append({"prefix": fill(keys), "op": opl("remove_lru"),
+                         "suffix": [opl("remove_lru") for _ in range(n - 4)] + suffix, "quiet_prefix": True})
     with open(path, "w") as fh:
         for s in segs:
             fh.write(json.dumps(s, separators=(",", ":")) + "\n")
